@@ -47,9 +47,29 @@ def f64list(bits):
     raw = b''.join(struct.pack('>Q', int(b)) for b in bits)
     if _SHARE is not None and len(bits) >= 2000:
         if raw not in _SHARE:
-            _SHARE[raw] = (f'shared_{len(_SHARE)}', '(f64s ' + blob(raw) + ')')
+            lit = '(f64s ' + blob(raw) + ')'
+            narrow = f32_patterns(bits)
+            if narrow is not None:      # every value is a normal binary32 number or +-0: 4 bytes each, widened in Coq (CheckC13.f32w)
+                lit = '(f32w ' + blob(b''.join(struct.pack('>I', b) for b in narrow)) + ')'
+            _SHARE[raw] = (f'shared_{len(_SHARE)}', lit)
         return _SHARE[raw][0]
     return '(f64s ' + blob(raw) + ')'
+
+
+def f32_patterns(bits64_list):
+    """the binary32 patterns of the given binary64 patterns when EVERY one of them is +-0 or a normal binary32 number
+    held exactly, else None (transport decision only; the widening is redone in Coq)"""
+    out = []
+    for b in bits64_list:
+        b = int(b)
+        s, e, m = b >> 63, (b >> 52) & 2047, b & ((1 << 52) - 1)
+        if e == 0 and m == 0:
+            out.append(s << 31)
+        elif 897 <= e <= 1150 and m & ((1 << 29) - 1) == 0:
+            out.append((s << 31) | ((e - 896) << 23) | (m >> 29))
+        else:
+            return None
+    return out
 
 
 def u32list(bits):
@@ -158,6 +178,15 @@ def gen_rows(rng, n, convert=True, f32_signal=False, row_dtypes=None):
     they are already in the documented unit, indices int32|int64|float32), 'all-f32' (every one of the nine rows
     float32, as for pixels taken from an existing SQW file; documented units only)"""
     rows = {}
+    if row_dtypes == 'f32-exact':
+        # float64 / int64 rows in the documented units whose values binary32 holds exactly (compact transport for > 1 MiB blocks)
+        for name in ('u1', 'u2', 'u3', 'u4'):
+            rows[name] = {'unit': ROW_TARGET[name], 'dtype': 'float64', 'values': [f32_exact(rng) for _ in range(n)]}
+        for name in ('irun', 'idet', 'ien'):
+            rows[name] = {'unit': None, 'dtype': 'int64', 'values': [rng.randrange(0, 100000) for _ in range(n)]}
+        rows['signal'] = {'unit': 'count', 'dtype': 'float64', 'values': [abs(f32_exact(rng)) for _ in range(n)]}
+        rows['error'] = {'values': [abs(f32_exact(rng)) for _ in range(n)]}
+        return rows
     if row_dtypes == 'all-f32':
         for name in ('u1', 'u2', 'u3', 'u4'):
             rows[name] = {'unit': ROW_TARGET[name], 'dtype': 'float32', 'values': [f32_exact(rng) for _ in range(n)]}
